@@ -77,6 +77,21 @@ struct Crash : Profile {
         Rng r             = rng.sub(2);
         int na = (int)r.range(2, 9), nb = (int)r.range(1, thorough ? 12 : 8);
         int maxlen = r.chance(0.3) ? 600 : 60;
+        if (kind == 1 && r.chance(0.1)) {
+            // directed: the SD description is the last thing in the base file, and the session adds one dataset without
+            // writing any data: the close deletes the old description and stores the new one, nothing else is appended
+            int nsd = (int)r.range(1, 3);
+            for (int i = 0; i < nsd; i++)
+                p.ops.push_back(mkop(0, "sdnew", {i, (int64_t)r.below(3), (int64_t)r.below(6), (int64_t)r.below(5), (int64_t)r.below(7), (int64_t)(r.next() >> 16), 0}));
+            p.ops.push_back(mkop(0, "end", {}));
+            p.ops.push_back(mkop(0, "mark", {}));
+            p.ops.push_back(mkop(0, "sdnew", {nsd, (int64_t)r.below(3), (int64_t)r.below(6), (int64_t)r.below(5), (int64_t)r.below(7), (int64_t)(r.next() >> 16), 4}));
+            p.ops.push_back(mkop(0, "end", {}));
+            p.ops.push_back(mkop(0, "verify", {}));
+            MixedGen::read_all(p.ops);
+            p.knobs["directed"] = 1;
+            return p;
+        }
         for (int i = 0; i < na; i++)
             p.ops.push_back(MixedGen::write_op(r, (int)r.below(5), false, maxlen));
         if (r.chance(0.35)) {
@@ -212,7 +227,11 @@ struct Crash : Profile {
                     ctx.probe("flush-start-site-checked");
                     if (getenv("H4SIM_DEBUG"))
                         fprintf(stderr, "flush starts in: %s\n", rec.site.c_str());
-                    if (rec.site.find("HTPsync") == std::string::npos)
+                    bool from_flush = rec.site.find("HTPsync") != std::string::npos;
+                    bool by_sync_or_close = false; // HTPsync is called by HIsync (Hsync, Hclose, Hcache) and by HTPend (Hclose)
+                    for (const char *caller : {"HIsync", "HTPend", "Hsync", "Hclose", "Hcache"})
+                        by_sync_or_close |= rec.site.find(caller) != std::string::npos;
+                    if (!from_flush || !by_sync_or_close)
                         ctx.fail("descriptor-write-before-flush", "descriptor-write-before-flush",
                                  strf("op %d (%s) wrote %zu bytes into a descriptor block of the base file (offset %lld) outside the "
                                       "descriptor flush: %s",
